@@ -92,6 +92,33 @@ fn oracle(c: &Case, st: &mut Stats) -> Result<(), String> {
   if md2 != md {
     honest.push((blinded.clone(), server.eval(&blinded, md2, true).map_err(|e| e.to_string())?, md2));
   }
+  // copies of the server (clone, export/import) answer further requests: their proofs count too
+  {
+    let clone = server.clone();
+    honest.push((b2.clone(), clone.eval(&b2, md, true).map_err(|e| e.to_string())?, md));
+    honest.push((blinded.clone(), clone.eval(&blinded, md, true).map_err(|e| e.to_string())?, md));
+    let bytes = bincode::serialize(&server.get_private_key()).map_err(|e| format!("export failed: {e}"))?;
+    let state: ppoprf::ppoprf::ServerKeyState = bincode::deserialize(&bytes).map_err(|e| format!("key state does not restore: {e}"))?;
+    let mut restored = Server::new(c.mds.clone()).map_err(|e| e.to_string())?;
+    restored.set_private_key(state);
+    honest.push((b2.clone(), restored.eval(&b2, md, true).map_err(|e| e.to_string())?, md));
+    // the original keeps answering after the copies were made
+    honest.push((b2.clone(), server.eval(&b2, md, true).map_err(|e| e.to_string())?, md));
+    // and requests served concurrently on other threads by the same instance
+    let extra: Vec<Result<Evaluation, String>> = std::thread::scope(|sc| {
+      let hs: Vec<_> = (0..2)
+        .map(|_| {
+          let (srv, pt) = (&server, &b2);
+          sc.spawn(move || srv.eval(pt, md, true).map_err(|e| e.to_string()))
+        })
+        .collect();
+      hs.into_iter().map(|h| h.join().expect("eval thread")).collect()
+    });
+    for e in extra {
+      honest.push((b2.clone(), e?, md));
+    }
+    st.class("proofs-from-clone-and-restored-copy");
+  }
   for (q, ev, m) in &honest {
     st.evals(1);
     // completeness, original form
@@ -143,7 +170,7 @@ fn oracle(c: &Case, st: &mut Stats) -> Result<(), String> {
   if !must_verify {
     st.class("base=identity-input");
   }
-  let other_ev = &honest[honest.len() - 1];
+  let other_ev = honest.iter().find(|(q, _, _)| q.as_bytes() == b2.as_bytes()).expect("tuple for the other input");
   let (oc, os) = proof_scalars(other_ev.1.proof.as_ref().unwrap())?;
   let tamper = |name: &str, t: Tuple, st: &mut Stats| -> Result<(), String> {
     st.evals(1);
@@ -183,7 +210,7 @@ fn oracle(c: &Case, st: &mut Stats) -> Result<(), String> {
   let vp = valid_point(c.seed).compress().to_bytes();
   let ident = RistrettoPoint::identity().compress().to_bytes();
   // output point
-  for (name, v) in [("output := another honest output", *honest[honest.len() - 1].1.output.as_bytes()), ("output := input point", base.input), ("output := unrelated valid point", vp), ("output := identity", ident), ("output := undecodable", [0xFFu8; 32])] {
+  for (name, v) in [("output := another honest output", *other_ev.1.output.as_bytes()), ("output := input point", base.input), ("output := unrelated valid point", vp), ("output := identity", ident), ("output := undecodable", [0xFFu8; 32])] {
     if v != base.output {
       tamper(name, mk(&|t| t.output = v), st)?;
     }
